@@ -94,6 +94,19 @@ CLAIMED = {
             "those before the call, requires pickle.dumps to succeed, and requires a clone of the used strategy to "
             "return what a freshly constructed strategy returns.",
             "DESIGN.md 5 (C05)", TRUST),
+    "C07": ("TLA+ module MultiAnnot (validate/rank/assign/pick state machine of the single-annotator wrapper; PairsOK, "
+            "PerSampleOK, termination under weak fairness; deviation switch RankAny) model-checked by TLC; "
+            "TLC-generated scenarios (MultiAnnotGen) replayed into SingleAnnotatorWrapper and "
+            "IntervalEstimationThreshold; every call validated by MultiAnnotTrace",
+            "TLC checks the reference assignment for all availability matrices up to 3x2, batch sizes and preferences "
+            "(distinct available pairs, clipped batch size, per-sample counts, termination) and shows that ranking rows "
+            "without available annotators (the code-shaped deviation) yields a non-terminating loop; the real "
+            "strategies are run on TLC-generated scenarios covering the candidate x annotator modes (None, index "
+            "arrays, Boolean matrices, feature rows), TLC-drawn label-missing patterns, batch sizes and "
+            "n_annotators_per_sample, with A_perf None/per-annotator/per-pair, and each result is validated by TLC: "
+            "shape (k,2), distinct available pairs, k = clipped batch size, utilities NaN at unavailable and earlier "
+            "pairs, per-sample counts; a watchdog turns non-termination into an unmatched event.",
+            "DESIGN.md 5 (C07)", TRUST),
 }
 
 NOT_YET = {}
